@@ -40,9 +40,11 @@ def run(ctx):
         for r in rs:
             ctx.cov["states"] += r.distinct
             ctx.cov["transitions"] += r.generated
+        if quick and name in ("ws", "xws"):
+            thin(cases, 8)          # the skip-rule variants multiply this slice; the passes act on the main rule
         # split into several batch files so that TLC shards run in parallel
         parts = 6 if quick else 12
-        lines = open(cases).read().splitlines()
+        lines = nl_lines(cases)
         os.remove(cases)
         for p in range(parts):
             sub = lines[p::parts]
@@ -120,6 +122,7 @@ def run(ctx):
             ctx.notes.append("uncovered_pass: %s never changed a grammar in this run" % p)
     ctx.assumptions += ["both feature sets are run: default and grammar-extras (x-slices; node tags are not compared)",
                         "inputs are exhaustive only up to length %d over at most 5 characters per grammar" % maxlen,
+                        "quick tier: every 8th grammar of the ws slices (they are dominated by skip-rule variants); thorough: all",
                         "EvalOp's account of the primitives' stack effects is itself validated against the real VM by C01 (VM(final) = EvalDoc(source)) and C03",
                         "cases whose evaluation diverges on either side of a pass are not compared"]
 
